@@ -102,6 +102,7 @@ func C12(r *core.Run) {
 		n := int64(0)
 		for code := 0; code < 256; code++ {
 			ref := refMouse(code)
+			d.modeSet(code + ei) // a report is decoded the same way whatever mouse mode was asked for
 			for _, fin := range []string{"M", "m"} {
 				for xi, cx := range coords {
 					for yi, cy := range coords {
